@@ -36,3 +36,38 @@ Definition C14_case2 (c : view * list N * list N * list (res (list N)) * list (n
 
 Definition C14_model2 (c : view * list N * list N * list (res (list N)) * list (nat * nat)) :=
   let '(v, _, _, _, _) := c in csv_render v.
+
+(* world form: several tables (each with its own wrappers) rendered in one
+   history, renders of one table possibly in progress while another is rendered.
+   [vs]: the view of every table; [csvs]: for every render id that is a CSV
+   render of a table in the state [vs] describes, the index of that table.
+   The oracle is the same (every render of an id gives what the first one
+   gave; the serialised snapshots of ALL tables agree before and after); the
+   model side: Model/WrapWorld.v (c14_world_render_is_out) says a render of
+   table i is out k (view of table i) whatever happened to the other tables in
+   between or meanwhile - evaluated here for k = csv. *)
+Fixpoint assoc14 (k : nat) (l : list (nat * nat)) : option nat :=
+  match l with
+  | [] => None
+  | (a, b) :: r => if a =? k then Some b else assoc14 k r
+  end.
+
+Definition C14_corr_w (vs : list view) (csvs : list (nat * nat)) (renders : list (nat * res (list N))) : bool :=
+  forallb (fun '(s, o) =>
+    match assoc14 s csvs with
+    | Some t => match nth_error vs t with Some v => outcome_eqb14 (csv_render v) o | None => false end
+    | None => true
+    end) renders.
+
+(* the snapshot after is shipped as (length of the prefix it shares with the
+   snapshot before, the rest): the two are long and, when the property holds,
+   equal; it is rebuilt here and compared as a whole *)
+Definition after14 (before : list N) (a : nat * list N) : list N := firstn (fst a) before ++ snd a.
+
+Definition C14_case_w (c : list view * list (nat * nat) * list N * (nat * list N) * list (res (list N)) * list (nat * nat)) : N :=
+  let '(vs, csvs, before, a, ds, ix) := c in
+  let renders := expand14 ds ix in
+  code (C14_corr_w vs csvs renders) (C14_ok before (after14 before a) renders).
+
+Definition C14_model_w (c : list view * list (nat * nat) * list N * (nat * list N) * list (res (list N)) * list (nat * nat)) :=
+  let '(vs, _, _, _, _, _) := c in map csv_render vs.
